@@ -137,18 +137,20 @@ def extract_default(
         default = default[:-offset] if offset else default
 
     if typ is not None and typ in simple_types and default not in none_types:
-        lit = literal_eval(default)
-        default = (
-            "```{}```".format(lit)
-            if isinstance(default, ast.AST)
-            else {
-                "bool": bool,
-                "int": int,
-                "float": float,
-                "complex": complex,
-                "str": str,
-            }[typ](lit)
-        )
+        # A default that is not a literal (e.g., an expression such as `a + 1`) is kept as written
+        with suppress(ValueError, SyntaxError):
+            lit = literal_eval(default)
+            default = (
+                "```{}```".format(lit)
+                if isinstance(default, ast.AST)
+                else {
+                    "bool": bool,
+                    "int": int,
+                    "float": float,
+                    "complex": complex,
+                    "str": str,
+                }[typ](lit)
+            )
     elif default.isdecimal() or (
         default[:1] in frozenset(("-", "+")) and default[1:].isdecimal()
     ):
